@@ -13,7 +13,7 @@ import (
 // literal is an RFC 8259 string (reference recogniser), consumed whole by parseString, and decodes
 // back to exactly the input.
 //
-//verif:props=C21,C20 bounds=all-strings<=3(quick)/4(thorough)-bytes maxsteps=4000000
+//verif:props=C21,C20,C13 bounds=all-strings<=3(quick)/4(thorough)-bytes maxsteps=4000000
 func H_C21_encode_string() {
 	N := 3
 	if nd.Thorough() {
